@@ -23,7 +23,8 @@ RULE = ('Hypothesis-generated (a) handler class hierarchies (2-6 classes decorat
         'listeners and non-empty args or kwargs after at least one re-registration or removal. Distinct = sha1 '
         'of canonical JSON.')
 ASSUMPTIONS = [
-    'handlers use identity equality/hash (value-equal handlers are outside the stated quantifier)',
+    'handlers are told apart by identity: value-equal and unhashable handlers are generated and are distinct '
+    'handlers (see DESIGN 7.2 R22)',
     'a handler added or removed while a dispatch of that event is iterating may or may not be reached by it',
     'single inheritance of mappings (one base lineage carries __events__; plain mixins may be mixed in)',
     'keyword arguments never use the names self / event_name (they collide with the API\'s own parameters)',
@@ -52,6 +53,19 @@ class Rec:
     _run = None
     ix = -1
     truth = True
+    eqmode = 0      # 0: identity; 1: value equality (all such handlers are equal, one hash); 2: equal and unhashable
+
+    def __eq__(self, other):
+        # handlers with value semantics (think of a frozen dataclass component): equal-but-distinct objects are
+        # distinct handlers all the same
+        if self.eqmode and isinstance(other, Rec) and other.eqmode:
+            return True
+        return self is other
+
+    def __hash__(self):
+        if self.eqmode == 2:
+            raise TypeError('unhashable handler (defines __eq__ without __hash__)')
+        return 7 if self.eqmode else object.__hash__(self)
 
     def __bool__(self):
         # some handlers are falsy objects (think of a container-like component that is empty right now):
@@ -108,7 +122,7 @@ def strategy():
     op = st.tuples(st.integers(0, 12), st.integers(0, 16 ** 5 - 1)).map(decode_op)
     return st.fixed_dictionaries({
         'classes': st.lists(cls, min_size=2, max_size=6),
-        'handlers': st.lists(st.integers(0, 5), min_size=1, max_size=6),
+        'handlers': st.lists(st.integers(0, 23), min_size=1, max_size=6),
         'ops': worldops.chunked(op, 40)})
 
 
@@ -319,17 +333,24 @@ class Run:
         if not handler_classes:
             self.flags['no_handler_class'] += 1
             return
-        self.hcls = [handler_classes[k % len(handler_classes)] for k in self.case['handlers']]
+        self.hcls = [handler_classes[k % 6 % len(handler_classes)] for k in self.case['handlers']]
         self.handlers = []
         for ix, ci in enumerate(self.hcls):
             h = self.classes[ci]()
             h._run = self
             h.ix = ix
-            h.truth = (self.case['handlers'][ix] + ix) % 3 != 0
+            h.truth = (self.case['handlers'][ix] % 6 + ix) % 3 != 0
             if not h.truth:
                 self.flags['falsy_handler'] += 1
+            h.eqmode = (0, 0, 1, 2)[self.case['handlers'][ix] // 6 % 4]
             self.handlers.append(h)
         self.strangers = [self.classes[handler_classes[0]]() for _ in range(2)]
+        self.strangers[1].eqmode = 1        # a stranger that EQUALS the value-equal handlers: still a stranger
+        neq = sum(1 for h in self.handlers if h.eqmode)
+        if neq >= 2:
+            self.flags['equal_but_distinct_handlers'] += 1
+        if any(h.eqmode == 2 for h in self.handlers):
+            self.flags['unhashable_handler'] += 1
         self.d = desper.EventDispatcher()
         self.check_is_handler()
         for self.step_ix, op in enumerate(self.case['ops']):
